@@ -180,6 +180,15 @@ type Exec struct {
 	inPure        bool
 	guards        []guardedCell
 	fnOwn         map[*ssa.Function]int
+	pcVars, pcSeen map[*Term]bool
+	trivialFeasible int
+	model         map[string]uint64 // a model of the current path condition, or nil
+	trailModel    map[string]uint64
+	newWorkModels []map[string]uint64
+	cacheHits     int
+	curKind       string
+	assertInherited int
+	pcSet         map[*Term]bool
 }
 
 type Thread struct {
@@ -227,32 +236,125 @@ func (e *Exec) assume(c *Term) {
 	if c.IsFalse() {
 		panic(pathAbort{"infeasible", "assumption false"})
 	}
+	if e.model != nil && !e.holdsInModel(c) {
+		e.model = nil
+	}
 	e.pc = append(e.pc, c)
+	if e.pcSet == nil {
+		e.pcSet = map[*Term]bool{}
+	}
+	e.pcSet[c] = true
+	e.notePCVars(c)
 }
 
-// feasible asks the solver whether pc ∧ g is satisfiable (Unknown counts as feasible, and is recorded).
-func (e *Exec) feasible(g *Term) bool {
+// notePCVars records the variables occurring in the path condition.
+func (e *Exec) notePCVars(c *Term) {
+	if e.pcVars == nil {
+		e.pcVars = map[*Term]bool{}
+		e.pcSeen = map[*Term]bool{}
+	}
+	var walk func(t *Term)
+	walk = func(t *Term) {
+		if t.IsConst || e.pcSeen[t] {
+			return
+		}
+		e.pcSeen[t] = true
+		if t.Op == "var" {
+			e.pcVars[t] = true
+			return
+		}
+		for _, a := range t.Args {
+			walk(a)
+		}
+	}
+	walk(c)
+}
+
+// triviallySat: g constrains only one variable that the path condition does not mention, in a
+// form that is obviously satisfiable (v, ¬v, v = const, v ≠ const).
+func (e *Exec) triviallySat(g *Term) bool {
+	neg := false
+	if g.Op == "not" {
+		g = g.Args[0]
+		neg = true
+	}
+	_ = neg
+	var v *Term
+	switch {
+	case g.Op == "var" && g.S.K == SBool:
+		v = g
+	case g.Op == "=" && g.Args[0].Op == "var" && g.Args[1].IsConst:
+		v = g.Args[0]
+	case g.Op == "=" && g.Args[1].Op == "var" && g.Args[0].IsConst:
+		v = g.Args[1]
+	case g.Op == "=" && g.Args[0].Op == "var" && g.Args[1].Op == "var":
+		// two distinct variables, one of them unconstrained: both = and ≠ are satisfiable
+		if g.Args[0].S.K == SBV && g.Args[0].S.W >= 2 && (!e.pcVars[g.Args[0]] || !e.pcVars[g.Args[1]]) {
+			return true
+		}
+		return false
+	default:
+		return false
+	}
+	if v.S.K == SBV && v.S.W < 2 {
+		return false
+	}
+	return !e.pcVars[v]
+}
+
+// feasible asks whether pc ∧ g is satisfiable (Unknown counts as feasible, and is recorded). It
+// returns a model of pc ∧ g when one is known (from the cache or from the solver).
+func (e *Exec) feasibleM(g *Term) (bool, map[string]uint64) {
 	if g == nil || g.IsTrue() {
-		return true
+		return true, e.model
 	}
 	if g.IsFalse() {
-		return false
+		return false, nil
 	}
 	if e.concrete != nil {
 		panic("symbolic guard during concrete re-execution: " + g.String())
 	}
+	if e.pcSet[g] {
+		e.cacheHits++
+		return true, e.model
+	}
+	if e.pcSet[e.ts.Not(g)] {
+		e.cacheHits++
+		return false, nil
+	}
+	if e.holdsInModel(g) {
+		e.cacheHits++
+		return true, e.model
+	}
+	if e.triviallySat(g) {
+		e.trivialFeasible++
+		return true, nil
+	}
 	e.queries++
-	r, _, why := e.ps.Check(e.pc, g, nil)
+	e.eng.noteFn("query:"+e.curKind, 1)
+	r, m, why := e.ps.Check(e.pc, g, e.modelVars(g))
 	if r == Unknown {
 		e.unknowns = append(e.unknowns, why)
-		return true
+		return true, nil
 	}
-	return r == Sat
+	if r == Sat && m == nil {
+		m = map[string]uint64{}
+	}
+	return r == Sat, m
+}
+
+func (e *Exec) feasible(g *Term) bool {
+	ok, _ := e.feasibleM(g)
+	return ok
 }
 
 // choose forks over options with the given guards (nil guard = unconditional option).
 func (e *Exec) choose(kind string, guards []*Term) int {
 	n := len(guards)
+	e.curKind = kind
+	if i := strings.Index(kind, "@"); i >= 0 {
+		e.curKind = kind[:i]
+	}
 	var i int
 	free := true
 	for _, g := range guards {
@@ -290,17 +392,28 @@ func (e *Exec) choose(kind string, guards []*Term) int {
 		if i >= n {
 			panic(fmt.Sprintf("trail desync at %d (%s): choice %d of %d; kinds so far %v", e.pos, kind, i, n, e.kinds))
 		}
+		if e.pos == len(e.trail)-1 && e.trailModel != nil {
+			// the model that witnessed this sibling's feasibility when it was discovered
+			defer func() { e.model = e.trailModel; e.trailModel = nil }()
+		}
 	} else {
 		first := -1
+		var firstModel map[string]uint64
 		for j := 0; j < n; j++ {
-			if e.feasible(guards[j]) {
+			ok, m := e.feasibleM(guards[j])
+			if ok {
 				if first < 0 {
 					first = j
+					firstModel = m
 				} else {
 					w := make([]int, len(e.taken)+1)
 					copy(w, e.taken)
 					w[len(e.taken)] = j
 					e.newWork = append(e.newWork, w)
+					if m != nil {
+						m = copyModel(m)
+					}
+					e.newWorkModels = append(e.newWorkModels, m)
 				}
 			}
 		}
@@ -308,6 +421,11 @@ func (e *Exec) choose(kind string, guards []*Term) int {
 			panic(pathAbort{"infeasible", "no feasible option at " + kind})
 		}
 		i = first
+		if guards[i] != nil {
+			if firstModel != nil {
+				defer func() { e.model = firstModel }()
+			}
+		}
 	}
 	e.pos++
 	e.taken = append(e.taken, i)
@@ -361,7 +479,9 @@ func (e *Exec) concretise(x *Term, what string) int {
 		copy(w, e.taken)
 		w[len(e.taken)] = v
 		e.newWork = append(e.newWork, w)
+		e.newWorkModels = append(e.newWorkModels, nil)
 	}
+	e.model = nil
 	v := vals[0]
 	e.pos++
 	e.taken = append(e.taken, v)
@@ -392,8 +512,12 @@ func (e *Exec) modelNow(extra *Term) (map[string]uint64, bool) {
 	if e.concrete != nil {
 		return e.concrete, true
 	}
+	if extra == nil && e.model != nil {
+		e.cacheHits++
+		return e.fullModel(e.model), true
+	}
 	e.queries++
-	r, m, why := e.ps.Check(e.pc, extra, e.nondets)
+	r, m, why := e.ps.Check(e.pc, extra, e.modelVars(extra))
 	if r == Unknown {
 		e.unknowns = append(e.unknowns, "model: "+why)
 		return nil, false
@@ -405,6 +529,17 @@ func (e *Exec) modelNow(extra *Term) (map[string]uint64, bool) {
 		m = map[string]uint64{}
 	}
 	return m, true
+}
+
+// fullModel completes a cached model with 0 for nondets the path condition never constrained.
+func (e *Exec) fullModel(m map[string]uint64) map[string]uint64 {
+	c := copyModel(m)
+	for _, v := range e.nondets {
+		if _, ok := c[v.Name]; !ok {
+			c[v.Name] = 0
+		}
+	}
+	return c
 }
 
 // ---------------------------------------------------------------- threads and scheduling
